@@ -59,7 +59,7 @@ def handle : List String → Option String
   | "c13tags" :: args => do
     let (c, rest) ← Driver.C11.ctx? args
     match rest with
-    | [sc] => do some (traceOut c (TraceQL.planTags c (← Driver.C11.parseScript sc)))
+    | [sc] => do some (traceOut c (TraceQL.planTags c "tempo_traces_kv_dist" (← Driver.C11.parseScript sc)))
     | _ => none
   | "c13tvalues" :: args => do
     let (c, rest) ← Driver.C11.ctx? args
@@ -87,16 +87,19 @@ def handle : List String → Option String
   | "c13prom" :: kind :: args => do
     let (c, rest) ← Driver.C07.ctx? args
     match rest with
-    | [m15, start, end_, step, range, fn, ms] => do
+    | [m15, start, end_, step, range, fn, ms, req] => do
+      -- `req`: one character per matcher, `1` = the matcher needs an index row, `0` = it is the inverse of a matcher that
+      -- accepts the empty value (its bit must stay clear); `-` = no matcher
       let h : Prom.Hints := ⟨← start.toInt?, ← end_.toInt?, ← step.toInt?, ← range.toInt?, ← Driver.C07.str? fn⟩
       let m15 ← Driver.C07.str? m15
       let mss ← matchers? ms
-      let s := if kind = "raw" then Prom.transpileRaw c h mss else Prom.transpileDown c m15 h mss
+      let req := if req = "-" then [] else req.toList.map (· == '1')
+      let s := if kind = "raw" then Prom.transpileRaw c h mss req else Prom.transpileDown c m15 h mss req
       some s!"{hexOut (renderSel s)} {confined lokiCfg (winOf c) s} {lokiOk c && lokiCfg.kind m15 == .data}"
     | _ => none
   | ["c13prof", table, fromNs, toNs, sels] => do
     let sels ← Driver.C17.allSome ((Driver.C17.parseList sels).map Driver.C17.parseSelector)
-    match Prof.profSelector (← Driver.C07.str? table) (← fromNs.toInt?) (← toNs.toInt?) sels with
+    match Prof.profSelector (Driver.C17.greOf sels) (← Driver.C07.str? table) (← fromNs.toInt?) (← toNs.toInt?) (sels.map (·.1)) with
     | none => some "unsupported"
     | some q => some (hexOut q.render)
   | _ => none
